@@ -40,7 +40,7 @@ for pid in all_ids:
 
 manifest = {
     "version": 1,
-    "setup_cmd": "cd /verif/harness && CARGO_NET_OFFLINE=true cargo build --offline --release && CARGO_NET_OFFLINE=true cargo build --offline",
+    "setup_cmd": "cd /verif/harness && CARGO_NET_OFFLINE=true cargo build --offline --release && CARGO_NET_OFFLINE=true cargo build --offline && (CARGO_NET_OFFLINE=true MIRIFLAGS=-Zmiri-disable-isolation cargo +nightly miri run --bin hdv -- warmup >/dev/null 2>&1 || true)",
     "hooks": {
         "guard": "cargo feature `verif-hooks` of the hyperdriver crate (off by default)",
         "enable": "the harness crate /verif/harness depends on hyperdriver by path (/repo) with features [client, server, stream, tls, tls-ring, sni, verif-hooks]; every check starts with `cargo build` of the harness, which recompiles /repo's working tree",
